@@ -1,5 +1,6 @@
 -- GENERATED: axiom audit for Props/C01*.lean
 import Props.C01
+import Props.C01_ext
 #print axioms SpyneModel.Props.C01.nil_true_is_nil
 #print axioms SpyneModel.Props.C01.nil_false_carries_value
 #print axioms SpyneModel.Props.C01.xml_roundtrip
@@ -12,3 +13,17 @@ import Props.C01
 #print axioms SpyneModel.Props.C01.norm_empty_repeated
 #print axioms SpyneModel.Props.C01.norm_nonempty_bytes
 #print axioms SpyneModel.Props.C01.norm_leaf_str
+#print axioms SpyneModel.Props.C01ext.rtCtx
+#print axioms SpyneModel.Props.C01ext.soap_in_headers_reach_function
+#print axioms SpyneModel.Props.C01ext.soap_no_header_is_none
+#print axioms SpyneModel.Props.C01ext.soap_out_headers_reach_client
+#print axioms SpyneModel.Props.C01ext.out_header_tuple_like_list
+#print axioms SpyneModel.Props.C01ext.no_out_header_no_element
+#print axioms SpyneModel.Props.C01ext.request_fidelity_any_style
+#print axioms SpyneModel.Props.C01ext.argsOf_bare
+#print axioms SpyneModel.Props.C01ext.argsOf_empty
+#print axioms SpyneModel.Props.C01ext.argsOf_wrapped
+#print axioms SpyneModel.Props.C01ext.response_fidelity_any_style
+#print axioms SpyneModel.Props.C01ext.multiple_returns_in_order
+#print axioms SpyneModel.Props.C01ext.client_packs_every_keyword
+#print axioms SpyneModel.Props.C01ext.client_call_fidelity
